@@ -1094,8 +1094,7 @@ def cases(tier):
         for (P, K, S) in ((4, 3, 3), (5, 2, 2), (3, 4, 2), (5, 3, 2)):
             out.append(("case_kernels", {"P": P, "K": K, "S": S}, UF))
         for pre in (True, False):
-            for gid in (0, 3):
-                out.append(("case_class_concrete", {"H": 2, "W": 4, "gid": gid, "S": 2, "preload": pre}, {"split": 3}))
+            out.append(("case_class_concrete", {"H": 2, "W": 4, "gid": 0 if pre else 3, "S": 2, "preload": pre}, {"split": 3}))
             out.append(("case_class_symbolic", {"H": 3, "W": 2, "K": 3, "S": 2, "preload": pre, "scales": [0.5, 2.0]}, dict(UF, split=2)))
             out.append(("case_class_symbolic", {"H": 2, "W": 3, "K": 3, "S": 2, "preload": pre, "scales": [3.0, 1.0]}, dict(UF, split=2)))
             out.append(("case_inversion_real", {"H": 2, "W": 2, "K": 3, "S1": 1, "S2": 2, "preload": pre, "reg": True, "scales": [0.25, 0.25]}, UF))
